@@ -111,7 +111,11 @@ def reply_tok(v, content=None):
         c = v["DeleteResult"]
         return f"del:{1 if c['deleted'] else 0}:{bytes(c['current']).hex() if c['current'] is not None else '-'}"
     if isinstance(v, dict) and "Error" in v:
-        return "error:" + v["Error"].replace(" ", "_")
+        e = v["Error"]
+        for pre in ("commit failed", "conflict-copy failed"):
+            if e.startswith(pre):
+                e = pre          # the OS error text that follows is not part of the compared reply
+        return "error:" + e.replace(" ", "_")
     return "UNKNOWN-REPLY"
 
 
